@@ -445,7 +445,7 @@ def gen_history(rng, stream: str = "main", max_ops: int = 40) -> Hist:
             if dial:
                 src += "    class Config(BaseConfig):\n        code_generation_options = [ADD_DIALECT_SUPPORT]\n"
             units.append(unit)
-            script.append({"op": "exec", "src": src})
+            script.append({"op": "exec", "src": src, **({"module": "b"} if rng.random() < 0.3 else {})})
             op_of_step.append(None)
             return
         s = site_settings(wiring, pick_mode() if stream != "kf" else False)
@@ -456,7 +456,8 @@ def gen_history(rng, stream: str = "main", max_ops: int = 40) -> Hist:
             sites.append(dict(s))
             unit[d] = [len(sites) - 1]
         units.append(unit)
-        script.append({"op": "exec", "src": site_create_src(s)})
+        # a holder may live in another module than the classes it dispatches over
+        script.append({"op": "exec", "src": site_create_src(s), **({"module": "b"} if (s["wiring"] == "holder" and rng.random() < 0.3) else {})})
         op_of_step.append(None)
 
     def gen_input(s: dict):
@@ -610,9 +611,29 @@ class Sandbox:
         self.mod = types.ModuleType(self.name)
         sys.modules[self.name] = self.mod
         self.ns = self.mod.__dict__
+        self.mod_b = None
+
+    def exec_step(self, step: dict, label: str):
+        """class/holder/codec definitions; a step marked module "b" is executed in a SECOND module that imports the
+        first one's names (a holder living in another module than the classes it dispatches over)"""
+        if step.get("module") != "b":
+            exec(compile(step["src"], f"<{self.name}:{label}>", "exec"), self.ns)
+            return
+        if self.mod_b is None:
+            self.mod_b = types.ModuleType(self.name + "_b")
+            sys.modules[self.name + "_b"] = self.mod_b
+        nsb = self.mod_b.__dict__
+        exec(f"from {self.name} import *", nsb)
+        exec(compile(step["src"], f"<{self.name}_b:{label}>", "exec"), nsb)
+        for k, v in list(nsb.items()):
+            if getattr(v, "__module__", None) == self.name + "_b" and isinstance(v, type):
+                self.ns[k] = v
 
     def close(self):
         sys.modules.pop(self.name, None)
+        sys.modules.pop(self.name + "_b", None)
+        if self.mod_b is not None:
+            self.mod_b.__dict__.clear()
         self.ns.clear()
 
 
@@ -821,7 +842,7 @@ def run_history(h: Hist):
         for k, step in enumerate(h.script):
             oi = h.op_of_step[k]
             if step["op"] == "exec":
-                exec(compile(step["src"], f"<{sb.name}:{k}>", "exec"), ns)
+                sb.exec_step(step, str(k))
                 if oi is not None:
                     n_classes += 1
                 continue
@@ -1019,7 +1040,7 @@ def build_fixed(kind: str, style: str, classes_spec: list, sites_spec: list, eve
             if s["dialects"] and wiring == "holder":      # one model site (own registries) per call-time dialect
                 sites.append(dict(s))
                 sites.append(dict(s))
-            script.append({"op": "exec", "src": site_create_src(s)})
+            script.append({"op": "exec", "src": site_create_src(s), **({"module": "b"} if spec.get("module") == "b" else {})})
             op_of_step.append(None)
         else:
             _, skey, t, present = ev[:4]
@@ -1161,6 +1182,7 @@ def fixed_histories() -> list[Hist]:
     # late subclass, unknown tag, absent key
     cl = [dict(), dict(parents=[0], own_tag=1), dict(parents=[1], own_tag=2, decl="classvar")]
     st = [dict(wiring=w, bases=[0], shape=sh) for sh in SHAPES for w in ("holder", "codec")]
+    st += [dict(wiring="holder", bases=[0], shape=sh, module="b") for sh in ("plain", "a_list", "dict")]   # holder in another module
     ev = [("define", 0), ("define", 1)] + [("site", k) for k in range(len(st))]
     ev += [("decode", ("site", k), 1, []) for k in range(len(st))] + [("define", 2)]
     for k in range(len(st)):
@@ -1374,22 +1396,18 @@ def make_replay(h: Hist, k: int, what: str, exp: str, obs: str) -> dict:
 
 def run(ctx: vlib.Ctx):
     ctx.coverage["rule"] = (
-        "random histories (6..40 ops) of 'define class' / 'create site' / 'decode' over real dynamically created "
-        "dataclasses (exec of source in a fresh module): 1-2 roots (mixin with Config.discriminator, mixin, plain), "
-        "multi-level and diamond hierarchies, non-root classes with their own class-level discriminator (nested dispatchers), "
-        "classes without own tag, tags as str/int/StrEnum/mixed declared as field/ClassVar/plain/Literal/Final, 40% of the field "
-        "histories draw tags from the value spectrum (0/False/0.0/IntEnum 0, ''/StrEnum '', None as a value, 1/True/1.0, -1, "
-        "'0', 'False', ' ' ...: ==-equal spellings are ONE abstract tag and are mixed between class attribute, tagger result "
-        "and input; a key present with a falsy value is distinct from an absent key), "
-        "variant_tagger_fn (bare or list result), sites = Config root (optionally called with dialect=) / Annotated holder "
-        "field / BasicDecoder over one class or a Union, the Discriminator annotation inside or around Optional/List/Dict/"
-        "Tuple (10 shapes, holder and codec), 1-2 discriminator key names per history (dispatchers of one hierarchy look at "
-        "different keys, a class carries a tag per key, each key independently present or absent in the input), "
-        "include_subtypes x include_supertypes, field "
-        "and no-field mode; decodes of present, future (class defined later), unknown and missing tags interleaved with "
-        "definitions and site creation; 25% of the histories have duplicate tags (correspondence only, oracle silent). "
-        "Plus 7 fixed edge histories and a stream inside the region of the known finding. distinct = (kind, wiring, sub, "
-        "sup, tagger, outcome kind, decode after a definition that followed the site's first decode, #bases)")
+        "random histories (6..40 ops) of 'define class' / 'create site' / 'decode' over real dynamically created dataclasses "
+        "(exec of source in fresh modules): kinds field / no-field / mixed (classes with tags AND required fields, every "
+        "dispatcher picks its mode: no-field dispatchers below field ones and vice versa, selected classes that reject the "
+        "input); 1-2 roots (mixin with Config.discriminator, mixin, plain), multi-level and diamond hierarchies, nested "
+        "class-level dispatchers, classes without own tag, tag value spectrum (falsy, None, bool/int/float/enum collisions, "
+        "unhashable values), 1-2 key names per history, two variant_tagger_fn functions (bare or list results), classes "
+        "whose own from_dict leaks a KeyError; sites = Config root / Annotated holder field / holder with 2-3 discriminated "
+        "fields (one call, several sites) / BasicDecoder, over one class or a Union, 10 annotation shapes, holders in the "
+        "classes' module or in another one, call-time dialects incl. first calls (one model site per holder x dialect), "
+        "codecs with default_dialect; inputs: present / future / unknown / absent keys, non-mapping inputs; 25% of the "
+        "histories have duplicate tags (correspondence only). Plus 14 fixed edge histories, the stream inside the known-"
+        "finding region of DiscrKF and two probes (several taggers in one holder, Optional-Union).")
     ctx.assumptions += [
         "tag uniqueness is required only for the decoded tag among the classes defined before the event (tag_unique); "
         "without it the result depends on the history (C12_nonunique_order_dependent, reproduced on /repo each run)",
@@ -1399,8 +1417,11 @@ def run(ctx: vlib.Ctx):
         "plain_carriers / no_nested, the nested behaviour itself is in the model and in the correspondence",
         "(X2) no-field mode through an Annotated holder over plain (non-mixin) dataclasses is generated only in the "
         "known-finding stream (finding C12/nofield-inherited-unpacker)",
-        "holders with several discriminated fields (each with its own variant_tagger_fn) are checked by the oracle only "
-        "(probe_two_taggers); the model has one registry and one tagger per site",
+        "(X4) Annotated[Optional[Union[..]], D] with include_supertypes and a tagger is generated only in the probe of known "
+        "finding C12/optional-union-nonetype-variant",
+        "C12_registry has the hypothesis no_keyerror (the selected class's own from_dict does not leak a KeyError); the "
+        "full statement is refuted in the faithful model (C12_variant_keyerror_refuted, known finding variant-keyerror-"
+        "misreported): the oracle reports those inputs as the known finding",
         "inputs are mappings with hashable tags (non-mapping / unhashable inputs belong to C05)",
     ]
     ctx.trusted += [
@@ -1603,7 +1624,7 @@ def replay(rep: dict) -> int:
         obs = None
         for k, step in enumerate(rep["script"]):
             if step["op"] == "exec":
-                exec(compile(step["src"], f"<replay:{k}>", "exec"), sb.ns)
+                sb.exec_step(step, f"replay{k}")
             else:
                 obs = do_decode(sb.ns, step)
                 print(f"step {k}: {step['call']}({step['input']}) -> {fmt(obs)}")
